@@ -43,7 +43,8 @@ func (c15) Meta() fw.Meta {
 			"monitors: recovered panics and worker deaths (process under RLIMIT_AS), per-call runtime.MemStats.TotalAlloc delta <= 64 KiB + 8*len(input) for decoders and <= 256 KiB + 8*fileSize for file operations, 30 s watchdog per call, result must be an error or an object that re-encodes to the consumed bytes. " +
 			"non-trivial = input that was accepted by a decoder/Open AND differs from every generated valid encoding, or was rejected after passing the first size check; distinct by input hash." +
 			" Also: malformed /files and /items listings (no final newline, CRLF, NUL separators, empty and 70 kB lines) through real HTTP; after every rejected Open a second Open of the same file under a 30 s watchdog with GC disabled." +
-			" Every 4th case talks to a raw-socket peer announcing 2^30..2^63-1 body bytes, sending 16 and closing (all five clients); every 4th case sums an item of 18-47 files nearly all of which are corrupt; remote client calls name archive ids -2..5 as well as -1.",
+			" Every 4th case talks to a raw-socket peer announcing 2^30..2^63-1 body bytes, sending 16 and closing (all five clients); every 4th case sums an item of 18-47 files nearly all of which are corrupt; remote client calls name archive ids -2..5 as well as -1." +
+			" Every 4th case runs the real view-raw command against responses that decode cleanly but contradict their header (more points than the archive has; millions of points declared).",
 		Assumptions: []string{
 			"worker address space limited to 6 GiB (RLIMIT_AS); a runtime out-of-memory abort is attributed to the case logged last",
 			"allocation is measured as the TotalAlloc delta around a call made from the only running harness goroutine",
